@@ -26,6 +26,7 @@ import Ldap3V.Lemmas.EscapeFilter
 import Ldap3V.Lemmas.EscapeUtf8
 import Ldap3V.Lemmas.EscapeDn
 import Ldap3V.Lemmas.EscapeDnStruct
+import Ldap3V.Lemmas.GenPure
 namespace Ldap3V
 open Spec Spec.Dn
 
@@ -380,5 +381,31 @@ example : Spec.Dn.parse (Spec.Dn.render
 -- numericoid types are accepted, `1.` / `01.2` / `a_b` are not
 example : isAttrType [0x32, 0x2E, 0x35, 0x2E, 0x34, 0x2E, 0x33] = true ∧ isAttrType [0x31, 0x2E] = false ∧
     isAttrType [0x30, 0x31, 0x2E, 0x32] = false ∧ isAttrType [0x61, 0x5F, 0x62] = false := by decide
+
+/-! ### tie by regeneration (translate/pure_fns.py): the escape sets and the hex-digit writer of the
+*current* src/util.rs are the model's.  `Gen.*` is regenerated from the Rust source on every run; a
+changed character set or nibble formula makes this theorem fail to re-check. -/
+
+/-- `needs_escape`, `always_escape`, `escape_leading`, `escape_trailing` as written in src/util.rs today
+decide every byte like the model predicates all C09 theorems are about, and both copies of `xdigit`
+compute the model's `xdigit` without overflow on every nibble (their only arguments: `c >> 4`, `c & 0xF`). -/
+theorem C09_escape_sets_source (c : UInt8) :
+    Gen.ldap_escape_needs_escape c = some (needsEscape c) ∧
+    Gen.dn_escape_always_escape c = some (alwaysEscape c) ∧
+    Gen.dn_escape_escape_leading c = some (escapeLeading c) ∧
+    Gen.dn_escape_escape_trailing c = some (escapeTrailing c) ∧
+    Gen.ldap_escape_xdigit (c >>> 4) = some (xdigit (c >>> 4)) ∧
+    Gen.ldap_escape_xdigit (c &&& 0xF) = some (xdigit (c &&& 0xF)) ∧
+    Gen.dn_escape_xdigit (c >>> 4) = some (xdigit (c >>> 4)) ∧
+    Gen.dn_escape_xdigit (c &&& 0xF) = some (xdigit (c &&& 0xF)) :=
+  ⟨gen_needs_escape c, gen_always_escape c, gen_escape_leading c, gen_escape_trailing c,
+   gen_ldap_xdigit _ (nibbles_lt c).1, gen_ldap_xdigit _ (nibbles_lt c).2,
+   gen_dn_xdigit _ (nibbles_lt c).1, gen_dn_xdigit _ (nibbles_lt c).2⟩
+
+-- non-vacuity: the generated predicate is the real thing (`*` is escaped, `a` is not); outside its
+-- domain the generated `xdigit` reports the overflow the model's wrapping `+` would hide
+example : Gen.ldap_escape_needs_escape 0x2A = some true ∧ Gen.ldap_escape_needs_escape 0x61 = some false ∧
+    Gen.ldap_escape_xdigit 0x0B = some 0x62 ∧ Gen.ldap_escape_xdigit 0xFF = none := by decide
+
 
 end Ldap3V
